@@ -127,7 +127,7 @@ CHECKS = {
         text='Every AddTerm history up to the depth bound from every leading form is executed on the real Equation/Term classes; each '
              'reached state is compared (exact rationals, 3 prime valuations) with leading expression + signed sum of the added terms. '
              'All term lists up to the length bound go through create_equation_from_terms (value preserved, argument unchanged). Sector-variable histories: additions interleaved with renaming and replacement of the right-hand side.',
-        note='Trusted: stdlib ast/fractions and the 200-line evaluator in mc/exact.py. Bounded: term alphabet of 23 spellings, 45 leading forms, depth 3 (quick) / 4 (thorough); Term-object histories over 2 equations to depth 4/5; arithmetic leading expressions only.'),
+        note='Trusted: stdlib ast/fractions and the 200-line evaluator in mc/exact.py. Bounded: term alphabet of 23 spellings, 51 leading forms, depth 3 (quick) / 4 (thorough); Term-object histories over 2 equations to depth 4/5; arithmetic leading expressions only.'),
 }
 
 NOT_YET = 'check not built yet (see DESIGN.md section 3)'
